@@ -95,6 +95,9 @@ impl Tunnel {
             (shutdown.notification_handler(), shutdown.completion_guard())
         };
         tokio::select! {
+            // a submitted shutdown is served first: the listener that feeds a QUIC session stops
+            // at the same moment, and the session must still say goodbye rather than end with EOF
+            biased;
             x = shutdown_notification.wait() => {
                 match x {
                     Ok(_) => self.downstream.graceful_shutdown().await,
